@@ -17,11 +17,14 @@ require (
 	cosmossdk.io/math v1.5.0
 	cosmossdk.io/store v1.10.0-rc.1.0.20241218084712-ca559989da43
 	cosmossdk.io/x/accounts v0.2.0-rc.1
+	cosmossdk.io/x/authz v0.2.0-rc.1
 	cosmossdk.io/x/bank v0.2.0-rc.1
 	cosmossdk.io/x/distribution v0.2.0-rc.1
+	cosmossdk.io/x/feegrant v0.2.0-rc.1
 	cosmossdk.io/x/gov v0.2.0-rc.1
 	cosmossdk.io/x/slashing v0.2.0-rc.1
 	cosmossdk.io/x/staking v0.2.0-rc.1
+	cosmossdk.io/x/tx v1.1.0
 	github.com/cometbft/cometbft v1.0.0
 	github.com/cometbft/cometbft/api v1.0.0
 	github.com/consensys/gnark v0.12.0
@@ -32,6 +35,7 @@ require (
 	github.com/cosmos/ibc-go/v9 v9.0.0-20241217101236-efca310eb993
 	github.com/gogo/protobuf v1.3.2
 	github.com/sunriselayer/sunrise v0.0.0-00010101000000-000000000000
+	google.golang.org/protobuf v1.36.4
 )
 
 require (
@@ -54,18 +58,15 @@ require (
 	cosmossdk.io/x/accounts/defaults/base v0.2.0-rc.1 // indirect
 	cosmossdk.io/x/accounts/defaults/lockup v0.2.0-rc.1 // indirect
 	cosmossdk.io/x/accounts/defaults/multisig v0.2.0-rc.1 // indirect
-	cosmossdk.io/x/authz v0.2.0-rc.1 // indirect
 	cosmossdk.io/x/circuit v0.2.0-rc.1 // indirect
 	cosmossdk.io/x/consensus v0.2.0-rc.1 // indirect
 	cosmossdk.io/x/epochs v0.2.0-rc.1 // indirect
 	cosmossdk.io/x/evidence v0.2.0-rc.1 // indirect
-	cosmossdk.io/x/feegrant v0.2.0-rc.1 // indirect
 	cosmossdk.io/x/group v0.2.0-rc.1 // indirect
 	cosmossdk.io/x/mint v0.2.0-rc.1 // indirect
 	cosmossdk.io/x/nft v0.2.0-rc.1 // indirect
 	cosmossdk.io/x/params v0.2.0-rc.1 // indirect
 	cosmossdk.io/x/protocolpool v0.2.0-rc.1 // indirect
-	cosmossdk.io/x/tx v1.1.0 // indirect
 	cosmossdk.io/x/upgrade v0.2.0-rc.1 // indirect
 	filippo.io/edwards25519 v1.1.0 // indirect
 	github.com/99designs/keyring v1.2.2 // indirect
@@ -215,7 +216,6 @@ require (
 	google.golang.org/genproto/googleapis/api v0.0.0-20241202173237-19429a94021a // indirect
 	google.golang.org/genproto/googleapis/rpc v0.0.0-20250122153221-138b5a5a4fd4 // indirect
 	google.golang.org/grpc v1.70.0 // indirect
-	google.golang.org/protobuf v1.36.4 // indirect
 	gopkg.in/ini.v1 v1.67.0 // indirect
 	gopkg.in/yaml.v2 v2.4.0 // indirect
 	gopkg.in/yaml.v3 v3.0.1 // indirect
